@@ -33,8 +33,10 @@
 (* of channels (1 for Float / Int, 4 for Colour: r, g, b, alpha); a channel   *)
 (* is a pair:                                                                 *)
 (*   Float   <<num, den>>, the exact rational num/den in lowest terms,        *)
-(*           den = 0 : undefined (NaN).  Mean of the DEFINED members of a     *)
-(*           block; undefined iff all four are.                               *)
+(*           <<0, 0>> : undefined (NaN), <<1, 0>> / <<-1, 0>> : +inf / -inf   *)
+(*           (defined values).  Mean of the DEFINED members of a block;       *)
+(*           undefined iff all four are, or the block holds both infinities.  *)
+(*           The recorded data range is over the FINITE values only.          *)
 (*   Int,    <<lo, hi>>, the integer interval of admissible stored values.    *)
 (*   Colour  Undefined is stored as 0 (Colour: alpha = 0 and the colour       *)
 (*           channels 0).  The mean is over the four STORED values, realised  *)
@@ -68,10 +70,21 @@ SetMax(S) == CHOOSE m \in S : \A o \in S : m >= o
 
 Undef == <<0, 0>>
 \* mean of the defined rationals among four (Float)
+PosInf == <<1, 0>>
+NegInf == <<-1, 0>>
+\* An infinite pixel is a DEFINED value.  The mean of a block holding +inf (and no -inf) is +inf; a block holding both
+\* infinities has no mean (IEEE: inf - inf): the output is undefined.  This is the one case in which an output
+\* pixel is undefined although not all four inputs are (the property's "NaN only if all four are" speaks about
+\* undefined INPUTS, which never make the output undefined by themselves).
 RatMean(q) ==
-    LET def == {i \in 1..4 : q[i][2] # 0}
+    LET def == {i \in 1..4 : q[i][2] # 0}          \* the finite members
         k == Cardinality(def)
-    IN IF k = 0 THEN Undef
+        pinf == \E i \in 1..4 : q[i] = PosInf
+        ninf == \E i \in 1..4 : q[i] = NegInf
+    IN IF pinf /\ ninf THEN Undef
+       ELSE IF pinf THEN PosInf
+       ELSE IF ninf THEN NegInf
+       ELSE IF k = 0 THEN Undef
        ELSE LET den(i) == IF i \in def THEN q[i][2] ELSE 1
                 l == Lcm(Lcm(den(1), den(2)), Lcm(den(3), den(4)))
                 term(i) == IF i \in def THEN q[i][1] * (l \div q[i][2]) ELSE 0
@@ -88,9 +101,11 @@ ReducePx(mode, p1, p2, p3, p4) == [ch \in 1..NCh(mode) |-> ReducePair(mode, <<p1
 
 \* ---------------------------------------------------------------- pixels and tiles
 UPx(mode) == [ch \in 1..NCh(mode) |-> Undef]
-IsUPx(mode, px) == IF mode = "Colour" THEN px[4][2] = 0 ELSE px[1][2] = 0
-\* a leaf pixel as given by the case: <<>> = undefined (Float only), else the channel values
+IsUPx(mode, px) == IF mode = "Colour" THEN px[4][2] = 0 ELSE IF mode = "Float" THEN px[1] = Undef ELSE px[1][2] = 0
+\* a leaf pixel as given by the case: <<>> = undefined (Float only), <<1, 0>> / <<-1, 0>> = +inf / -inf (Float only),
+\* else the channel values
 LeafPx(mode, v) == IF v = <<>> THEN UPx(mode)
+                   ELSE IF mode = "Float" /\ Len(v) = 2 THEN <<v>>
                    ELSE [ch \in 1..NCh(mode) |-> IF mode = "Float" THEN <<v[ch], 1>> ELSE <<v[ch], v[ch]>>]
 Matrix(f(_, _), n) == [r \in 1..n |-> [col \in 1..n |-> f(r, col)]]
 AllUndef(mode, m) == \A r \in DOMAIN m : \A col \in DOMAIN m[r] : IsUPx(mode, m[r][col])
@@ -161,8 +176,10 @@ DisplayMosaic(mode, kids) ==
 \* c.id        harness bookkeeping
 LeafMatrix(c, l) == Matrix(LAMBDA r, col : LeafPx(c.mode, c.leaves[l][r][col]), T)
 \* Image.save without explicit range: the finite minimum / maximum of the array (Int: 0 is a value like any other)
-DefinedValues(c, l) == {c.leaves[l][r][col][1] : <<r, col>> \in {rc \in Idx \X Idx : c.leaves[l][rc[1]][rc[2]] # <<>>}}
-LeafRange0(c, l) == LET vs == DefinedValues(c, l)
+\* the FINITE values of a leaf (neither undefined nor infinite; Float finite pixels and Int pixels have length 1)
+FiniteValues(c, l) == {c.leaves[l][rc[1]][rc[2]][1] : rc \in {q \in Idx \X Idx : Len(c.leaves[l][q[1]][q[2]]) = 1}}
+\* ... a leaf whose defined pixels are all infinite records no range
+LeafRange0(c, l) == LET vs == FiniteValues(c, l)
                     IN IF ~c.ranged \/ vs = {} THEN NoRange ELSE <<SetMin(vs), SetMax(vs)>>
 \* the leaf tile as the property sees it (display orientation)
 LeafTile(c, l) ==
@@ -197,7 +214,8 @@ DomainOK(c) ==
     /\ \A l \in DOMAIN c.leaves : \A r \in Idx : \A col \in Idx :
           LET v == c.leaves[l][r][col] IN
           /\ (v = <<>>) => c.mode = "Float"
-          /\ (v # <<>>) => Len(v) = NCh(c.mode)
+          /\ (v # <<>> /\ c.mode # "Float") => Len(v) = NCh(c.mode)
+          /\ (v # <<>> /\ c.mode = "Float") => Len(v) = 1 \/ v = PosInf \/ v = NegInf
           /\ (v # <<>> /\ c.mode # "Float") => \A ch \in 1..Len(v) : v[ch] = 0 \/ v[ch] >= 4 ^ Depth
           /\ (v # <<>> /\ c.mode = "Colour" /\ v[4] = 0) => v = <<0, 0, 0, 0>>
           /\ (v # <<>> /\ c.mode = "Colour" /\ v[4] # 0) => \A ch \in 1..3 : v[ch] <= 255 /\ v[4] <= 255
@@ -212,8 +230,10 @@ vars == <<c, fin, pyr, done>>
 
 Stored(t) == FlipTile(c.bottomup, t)      \* display tile -> stored tile (and back: an involution)
 
-Init == /\ c \in Cases
-        /\ fin = Final(c)
+\* Domain: no tile above the leaves vanishes only because +inf and -inf cancel in every one of its blocks (the
+\* finite values of the leaves under such a tile would be cut off from its ancestors).  Cases outside are skipped.
+Connected(mode, f) == \A p \in UpTo(Depth - 1) : (\E k \in Kids(p) : f[k].ex /\ ~AllUndef(mode, f[k].px)) => f[p].ex
+Init == /\ \E x \in Cases : LET f == Final(x) IN Connected(x.mode, f) /\ c = x /\ fin = f
         /\ pyr = InitPyr(c)
         /\ done = {}
 
@@ -254,18 +274,19 @@ ExistenceRule ==
 \* ... and its consequence over the leaves: a tile exists iff some leaf beneath it has a defined pixel
 HasDefined(l) == l \in DOMAIN c.leaves /\ ~AllUndef(c.mode, LeafMatrix(c, l))
 ExistsIffDataBelow == \A p \in done : pyr[p].ex <=> \E l \in Level(Depth) : InSub(l, p) /\ HasDefined(l)
+InDomain == Connected(c.mode, fin)
 \* a stale file at a merged position has been replaced (or removed)
 StaleReplaced == \A p \in done \cap c.stale : pyr[p] = Stored(fin[p])
 \* stored tiles above the leaves are never entirely undefined
 NeverStoredUndefined == \A p \in done : pyr[p].ex => ~AllUndef(c.mode, pyr[p].px)
 
 \* C14: the recorded range of every tile is the range of the defined leaf values beneath it
-ValuesBelow(p) == UNION {DefinedValues(c, l) : l \in {q \in DOMAIN c.leaves : InSub(q, p)}}
-RangeRule == \A p \in done : (c.ranged /\ pyr[p].ex) =>
-                 /\ ValuesBelow(p) # {}
-                 /\ pyr[p].rng = <<SetMin(ValuesBelow(p)), SetMax(ValuesBelow(p))>>
-LeafRangeRule == \A l \in Level(Depth) : (c.ranged /\ pyr[l].ex /\ HasDefined(l)) =>
-                     pyr[l].rng = <<SetMin(ValuesBelow(l)), SetMax(ValuesBelow(l))>>
+\* ... of the FINITE leaf values: undefined and infinite pixels do not count; a tile with no finite value beneath it
+\* (all its data infinite) records no range
+ValuesBelow(p) == UNION {FiniteValues(c, l) : l \in {q \in DOMAIN c.leaves : InSub(q, p)}}
+RangeOf(S) == IF S = {} THEN NoRange ELSE <<SetMin(S), SetMax(S)>>
+RangeRule == \A p \in done : (c.ranged /\ pyr[p].ex) => pyr[p].rng = RangeOf(ValuesBelow(p))
+LeafRangeRule == \A l \in Level(Depth) : (c.ranged /\ pyr[l].ex) => pyr[l].rng = RangeOf(ValuesBelow(l))
 NoRangeUnlessRanged == ~c.ranged => \A p \in UpTo(Depth) : pyr[p].rng = NoRange
 
 \* the walk never blocks before it is finished, and the serial (post-order) walk is one of the admitted orders
